@@ -32,7 +32,8 @@ func genTyped(t *rapid.T) TypedCase {
 	c.Type = e.Name
 	cols := ref.Columns(&e.Node)
 	st := []gen.Style{gen.Mixed, gen.SmallDom, gen.Wide}[rapid.IntRange(0, 2).Draw(t, "style")]
-	c.Plan = gen.Rows(t, &e.Node, 8, kit.Pick(300, 3000), gen.ValueOpts{Style: st, Leaf: gen.Opts{MaxBytes: kit.Pick(40, 300)}})
+	c.Plan = gen.Rows(t, &e.Node, 8, kit.Pick(300, 3000), gen.ValueOpts{Style: st, Leaf: gen.Opts{MaxBytes: kit.Pick(40, 300)}, LongLists: 8})
+	c.Plan.Uniq = rapid.IntRange(0, 2).Draw(t, "uniq") == 0
 	c.Opts = gen.WriterOptions(t, cols, gen.OptsBias{SmallPages: rapid.Bool().Draw(t, "small"), EncFor: pq.ValidEncodings})
 	c.Ops = gen.WriteOps(t, c.Plan.NumRows())
 	c.ReadBatch = []int{1, 2, 7, 17, 64, 100, 1000}[rapid.IntRange(0, 6).Draw(t, "rb")]
@@ -46,7 +47,7 @@ func runTyped(c TypedCase, o *kit.Obs) *kit.Failure {
 	}
 	pre := "c01/typed/" + c.Type + "/"
 	cols := ref.Columns(&e.Node)
-	rows := e.New(c.Plan.Expand())
+	rows := e.New(c.Plan.ExpandWith(&e.Node))
 	want := e.LaxTrees(rows)
 	tmp, cleanup := pq.TempDir(c.Opts)
 	defer cleanup()
